@@ -365,7 +365,9 @@ class Constraint(AbstractConstraint):
                 elif self.positive:
                     if safe_issubclass(inner_value.typ, self.value):
                         yield value
-                    elif safe_issubclass(self.value, inner_value.typ):
+                    elif safe_issubclass(
+                        self.value, inner_value.typ
+                    ) or _is_promotable_to(self.value, inner_value.typ):
                         yield TypedValue(self.value)
                     # TODO: Technically here we should infer an intersection type:
                     # a type that is a subclass of both types. In practice currently
@@ -392,7 +394,9 @@ class Constraint(AbstractConstraint):
                     if inner_value.val is self.value:
                         yield value
                 elif isinstance(inner_value, TypedValue):
-                    if isinstance(self.value, inner_value.typ):
+                    if isinstance(self.value, inner_value.typ) or _is_promotable_to(
+                        type(self.value), inner_value.typ
+                    ):
                         yield known_val
                 elif isinstance(inner_value, SubclassValue):
                     if (
@@ -400,7 +404,10 @@ class Constraint(AbstractConstraint):
                         and isinstance(self.value, type)
                         # TODO consider synthetic types
                         and isinstance(inner_value.typ.typ, type)
-                        and safe_issubclass(self.value, inner_value.typ.typ)
+                        and (
+                            safe_issubclass(self.value, inner_value.typ.typ)
+                            or _is_promotable_to(self.value, inner_value.typ.typ)
+                        )
                     ):
                         yield known_val
             else:
@@ -483,6 +490,19 @@ class Constraint(AbstractConstraint):
         else:
             value = str(self.value)
         return f"<{sign}{self.varname} {self.constraint_type.name} {value}>"
+
+
+def _is_promotable_to(typ: object, target: object) -> bool:
+    """Whether instances of typ belong to target only through the implicit
+    int -> float -> complex promotion of the type system (a variable declared
+    as float may hold an int)."""
+    if target is not float and target is not complex:
+        return False
+    if not isinstance(typ, type):
+        return False
+    import pyanalyze.type_object
+
+    return pyanalyze.type_object.TypeObject(typ).is_assignable_to_type(target)
 
 
 TRUTHY_CONSTRAINT = Constraint(
